@@ -1,2 +1,25 @@
 import PieModel.Props.C07
-#print axioms PieModel.C07_placeholder
+
+#print axioms PieModel.tdStack
+#print axioms PieModel.Frames.stackOK
+#print axioms PieModel.C07_frames_stackOK
+#print axioms PieModel.C07_frames_nil_iff
+#print axioms PieModel.C07_stack_invariant
+#print axioms PieModel.C07_stack_bounded
+#print axioms PieModel.C07_require_on_stack_aborts
+#print axioms PieModel.C07_cycle_abort_clean
+#print axioms PieModel.C07_cycle_abort_clean_store
+#print axioms PieModel.C07_reserve_abort_is_cyclic
+#print axioms PieModel.C07_no_value_on_cycle
+#print axioms PieModel.C07_no_reentry_require
+#print axioms PieModel.C07_no_reentry_make
+#print axioms PieModel.C07_no_reentry_check
+#print axioms PieModel.C07_no_reentry_checkDeps
+#print axioms PieModel.C07_no_reentry_run
+#print axioms PieModel.C07_example_sessOK
+#print axioms PieModel.C07_example_stackOK
+#print axioms PieModel.C07_stackOK_preserved_make
+#print axioms PieModel.C07_stackOK_preserved_check
+#print axioms PieModel.C07_stackOK_preserved_checkDeps
+#print axioms PieModel.C07_stackOK_preserved_run
+#print axioms PieModel.C07_stackOK_preserved_require
